@@ -35,9 +35,14 @@ def _chunks(tier):
                 units.append((("a", "b", "c"), [sf[0]], ALL_PARAMS, 1, ri, None))
         # two parameters, three lifetimes, all 64 bound sets, reduced parameter menu, self in {none, &'a self}
         two = ["&'x Op", "&'x OpL<'y>", "&'x [u8]", "SB<'x>", "S2<'x,'y>", "S2b<'x,'y>", "&Op"]
+        # (all 64 bound sets with two parameters would be ~12 M signatures: the bound sets are restricted to the 10 that matter for
+        # transitivity - empty, single edges, 2-chains both ways, fork, join, 3-cycle, total)
+        b3 = [frozenset(), frozenset({("a", "b")}), frozenset({("c", "a")}), frozenset({("a", "b"), ("b", "c")}), frozenset({("c", "b"), ("b", "a")}),
+              frozenset({("a", "b"), ("a", "c")}), frozenset({("b", "a"), ("c", "a")}), frozenset({("a", "b"), ("b", "c"), ("c", "a")}),
+              frozenset({("a", "b"), ("c", "b"), ("a", "c")}), frozenset((x, y) for x in "abc" for y in "abc" if x != y)]
         for ri in range(len(S.RET_FORMS)):
             for sf in ("none", "&'x self on Op"):
-                units.append((("a", "b", "c"), [sf], two, 2, ri, None))
+                units.append((("a", "b", "c"), [sf], two, 2, ri, b3))
         # four lifetimes: chains, diamonds, single extra edges
         l4 = ("a", "b", "c", "d")
         fam = [frozenset(), frozenset({("a", "b"), ("b", "c"), ("c", "d")}), frozenset({("d", "c"), ("c", "b"), ("b", "a")}),
@@ -197,7 +202,7 @@ def run(tier):
                 "reflexive-transitive outlives closure; the backend half compares the edge arrays emitted by js/dart/kotlin/nanobind.",
         "exhaustive": True,
         "distinct_outcomes": ip["distinct_expected_outcomes"],
-        "bound": {"tier": tier, "units": ip["units"], "lifetimes": "<=2 all bound sets, 3 chains" if tier == "quick" else "<=3 all bound sets (64), 4 with 7 bound families",
+        "bound": {"tier": tier, "units": ip["units"], "lifetimes": "<=2 all bound sets, 3 chains" if tier == "quick" else "<=3 lifetimes: all 64 bound sets with <=1 parameter, 10 bound families with 2 parameters; 4 lifetimes with 7 bound families",
                   "params": "<=1 (quick) / <=2 (thorough)"},
         "inprocess": {k: v for k, v in ip.items() if k != "samples"},
         "backend_half": be,
